@@ -1,131 +1,89 @@
 /-
-C09 — property theorems.  For every strict total comparator, every capacity and every sorted
-vector (no size bound):  each modelled member of static_set / flat_set returns `.ok` (no access
-outside the vector, no violated static_vector precondition, no exhausted loop bound: the C02 face)
-of exactly what the declarative `std::set` spec prescribes; sortedness (= strict ascent, hence
-uniqueness) and the capacity bound are invariants of every history; whole histories refine the spec.
+C09 — property theorems.  For every comparator that is a STRICT WEAK ORDER (the standard's requirement on
+`Compare`; equivalent keys need not be equal), every capacity and every sorted vector (no size bound): each
+modelled member of static_set / flat_set returns `.ok` (no access outside the vector, no violated static_vector
+precondition, no exhausted loop bound: the C02 face) of exactly what the declarative `std::set` spec prescribes;
+sortedness (= strict ascent, hence uniqueness) and the capacity bound are invariants of every history; whole
+histories refine the spec.
+
+No theorem needs `operator==` to agree with the comparator's equivalence: the two members that were written with
+`operator==` (`static_set::find(key_type const&)`, `flat_set::erase(key_type const&)`) were found to diverge from
+`std::set` for such comparators and repaired (F-C09-ss-find-eq, F-C09-fs-erase-key-eq).  The heterogeneous (`K const&`)
+overloads are modelled with their own pair of comparison functions and proved under the consistency condition `HetOk`.
 -/
-import TetlProofs.C09.Order
+import TetlProofs.C09.Hint
+import TetlProofs.C09.Mset
 namespace Tetl.C09.Props
 open Tetl Tetl.C09
 
-variable {α : Type} {lt : α → α → Bool}
+variable {α κ : Type} {lt : α → α → Bool}
 
 /-! ## lookups -/
 
-theorem lowerBound_eq (hst : StrictTotal lt) {l : List α} (hs : Sorted lt l) (k : α) :
-    lowerBound lt l k = .ok (Spec.lowerBound lt l k) := by
-  obtain ⟨A, B, rfl, hA, hB, hr⟩ := lowerBound_split hst hs k
-  rw [hr, spec_lowerBound hA hB]
+theorem lowerBound_eq (hw : StrictWeak lt) {l : List α} (hs : Sorted lt l) (k : α) :
+    lowerBound lt l k = .ok (Spec.lowerBound lt l k) :=
+  lowerBoundP_eq (fun x => lt x k) (parted_hom hw hs k).below_mono
 
-theorem upperBound_eq (hst : StrictTotal lt) {l : List α} (hs : Sorted lt l) (k : α) :
-    upperBound lt l k = .ok (Spec.upperBound lt l k) := by
-  obtain ⟨A, B, rfl, hA, hB, hr⟩ := upperBound_split hst hs k
-  rw [hr, spec_upperBound hA hB]
+theorem upperBound_eq (hw : StrictWeak lt) {l : List α} (hs : Sorted lt l) (k : α) :
+    upperBound lt l k = .ok (Spec.upperBound lt l k) :=
+  upperBoundP_eq (fun x => lt k x) (parted_hom hw hs k).above_mono
 
-theorem equalRange_eq (hst : StrictTotal lt) {l : List α} (hs : Sorted lt l) (k : α) :
-    equalRange lt l k = .ok (Spec.lowerBound lt l k, Spec.upperBound lt l k) := by
-  simp [equalRange, lowerBound_eq hst hs, upperBound_eq hst hs]
+theorem equalRange_eq (hw : StrictWeak lt) {l : List α} (hs : Sorted lt l) (k : α) :
+    equalRange lt l k = .ok (Spec.lowerBound lt l k, Spec.upperBound lt l k) :=
+  equalRangeP_eq (parted_hom hw hs k)
 
 example : Sorted (fun a b : Nat => decide (a < b)) [1, 3, 5] := by unfold Sorted; decide
 
 /-- what the `lower_bound` + equivalence test sees, in terms of the spec -/
-theorem probe (hst : StrictTotal lt) {l : List α} (hs : Sorted lt l) (k : α) :
+theorem probe (hw : StrictWeak lt) {l : List α} (hs : Sorted lt l) (k : α) :
     ∃ A B, l = A ++ B ∧ lowerBound lt l k = .ok A.length ∧ Spec.lowerBound lt l k = A.length ∧
       (∀ x ∈ A, lt x k = true) ∧ (∀ x ∈ A, lt k x = false) ∧ (∀ x ∈ B, lt x k = false) ∧
-      ((∃ B', B = k :: B' ∧ (∀ x ∈ B', lt k x = true) ∧
+      ((∃ b B', B = b :: B' ∧ lt b k = false ∧ lt k b = false ∧ (∀ x ∈ B', lt k x = true) ∧
           equivAt (fun x => lt k x) l A.length = .ok true ∧ Spec.contains lt l k = true) ∨
        ((∀ x ∈ B, lt k x = true) ∧
-          equivAt (fun x => lt k x) l A.length = .ok false ∧ Spec.contains lt l k = false)) := by
-  obtain ⟨A, B, rfl, hA, hB, hr⟩ := lowerBound_split hst hs k
-  obtain ⟨hA', hcase⟩ := classify hst hs hA hB
-  refine ⟨A, B, rfl, hr, spec_lowerBound hA hB, hA, hA', hB, ?_⟩
-  rcases hcase with ⟨B', rfl, hB'⟩ | hB'
-  · left
-    refine ⟨B', rfl, hB', ?_, (spec_present hst hA hB').1⟩
-    simp [equivAt, rd_append_mid, hst.irrefl]
-  · right
-    refine ⟨hB', ?_, (spec_absent hA hA' hB hB').1⟩
-    cases B with
-    | nil => simp [equivAt]
-    | cons b B' => simp [equivAt, rd_append_mid, hB' b]
+          equivAt (fun x => lt k x) l A.length = .ok false ∧ Spec.contains lt l k = false)) :=
+  probeW hw hs k
 
 /-- `find` through `lower_bound` (flat_set::find, static_set's transparent find) -/
-theorem findLB_eq (hst : StrictTotal lt) {l : List α} (hs : Sorted lt l) (k : α) :
-    findLB (fun x => lt x k) (fun x => lt k x) l = .ok (Spec.find lt l k) := by
-  obtain ⟨A, B, hl, hr, hsl, _, _, _, hcase⟩ := probe hst hs k
-  have hr' : boundLoop l (fun x => lt x k) 0 l.length = .ok A.length := hr
-  unfold findLB Spec.find
-  rcases hcase with ⟨B', _, _, he, hc⟩ | ⟨_, he, hc⟩
-  · simp [hr', he, hc, hsl]
-  · simp [hr', he, hc]
+theorem findLB_eq (hw : StrictWeak lt) {l : List α} (hs : Sorted lt l) (k : α) :
+    findLB (fun x => lt x k) (fun x => lt k x) l = .ok (Spec.find lt l k) :=
+  findLBP_eq (parted_hom hw hs k)
 
-/-- static_set::find(key): the linear `etl::find` gives the same answer on a sorted set -/
-theorem ssFind_eq [DecidableEq α] (hst : StrictTotal lt) {l : List α} (hs : Sorted lt l) (k : α) :
-    ssFind l k = .ok (Spec.find lt l k) := by
-  obtain ⟨A, B, hl, _, hsl, hA, _, _, hcase⟩ := probe hst hs k
-  obtain ⟨W, D, hWD, hW, hD, hres⟩ := findIfLoop_split (fun x => decide (x = k)) l []
-  simp only [List.nil_append, List.length_nil, Nat.zero_add] at hres
-  unfold ssFind Spec.find
-  rw [hres]
-  have hkA : k ∉ A := fun h => by have := hA k h; rw [hst.irrefl] at this; cases this
-  have hkW : k ∉ W := fun h => by have := hW k h; simp at this
-  have hDk : ∀ d D', D = d :: D' → d = k := fun d D' h => by simpa using hD d D' h
-  rcases hcase with ⟨B', hB, hB', _, hc⟩ | ⟨hB', _, hc⟩
-  · rw [hc, hsl]; simp only [if_true]
-    subst hB
-    have heq : W ++ D = A ++ k :: B' := by rw [← hWD, hl]
-    rcases List.append_eq_append_iff.mp heq with ⟨a', ha, hd⟩ | ⟨c', hc', hd⟩
-    · cases a' with
-      | nil => simp at ha; rw [ha]
-      | cons x a'' =>
-        exfalso
-        have : x = k := hDk x _ hd
-        apply hkA; rw [ha, this]; simp
-    · cases c' with
-      | nil => simp at hc'; rw [hc']
-      | cons y c'' =>
-        exfalso
-        have : k = y := by simp at hd; exact hd.1
-        apply hkW; rw [hc', ← this]; simp
-  · rw [hc]; simp only [Bool.false_eq_true, if_false]
-    have hkl : k ∉ l := by
-      rw [hl]; intro h
-      rcases List.mem_append.mp h with h | h
-      · exact hkA h
-      · have := hB' k h; rw [hst.irrefl] at this; cases this
-    cases D with
-    | nil => rw [hWD]; simp
-    | cons d D' =>
-      exfalso
-      have : d = k := hDk d D' rfl
-      apply hkl; rw [hWD, this]; simp
+/-- every lookup member written through the comparator (all of flat_set's; static_set's bounds), `key_type const&` overload -/
+theorem lookup_eq (hw : StrictWeak lt) {l : List α} (hs : Sorted lt l) (k : α) (w : Lk) :
+    lookupP (fun x => lt x k) (fun x => lt k x) l w = .ok (Spec.lookupP (fun x => lt x k) (fun x => lt k x) l w) :=
+  lookupP_eq (parted_hom hw hs k) w
+
+/-- HETEROGENEOUS lookups (`K const&` overloads of find / contains / count / lower_bound / upper_bound / equal_range,
+    static_set and flat_set): for a key of another type compared through `h.ek` / `h.ke`, consistent with the set's
+    order (`HetOk`), every member returns the answer [associative.reqmts] prescribes for `kl` / `ku` / `ke` -/
+theorem hlookup_eq {h : Het α κ} (hh : HetOk lt h) {l : List α} (hs : Sorted lt l) (k : κ) (w : Lk) :
+    lookupP (fun x => h.ek x k) (fun x => h.ke k x) l w
+      = .ok (Spec.lookupP (fun x => h.ek x k) (fun x => h.ke k x) l w) :=
+  lookupP_eq (parted_het hh hs k) w
+
+/-- the homogeneous comparison is a consistent heterogeneous one -/
+theorem hetOk_hom (hw : StrictWeak lt) : HetOk lt ({ ek := lt, ke := lt } : Het α α) :=
+  ⟨fun k a b hab hb => hw.trans a b k hab hb, fun k a b hab ha => hw.trans k a b ha hab, fun _ _ h => hw.asymm h⟩
+
+-- non-vacuity of `HetOk` on a genuinely heterogeneous key: elements are `Nat`, keys are pairs compared by their
+-- first component only
+example : HetOk (fun a b : Nat => decide (a < b))
+    ({ ek := fun x k => decide (x < k.1), ke := fun k x => decide (k.1 < x) } : Het Nat (Nat × Bool)) :=
+  ⟨by intro k a b; simp; omega, by intro k a b; simp; omega, by intro k a; simp; omega⟩
 
 /-! ## insert / emplace -/
 
-theorem spec_insert_inv (hst : StrictTotal lt) {cap : Nat} {l : List α} (h : Inv1 lt cap l) (k : α) :
-    Inv1 lt cap (Spec.insert lt cap l k).1 := by
-  obtain ⟨hs, hc⟩ := h
-  obtain ⟨A, B, hl, _, _, hA, hA', hB, hcase⟩ := probe hst hs k
-  unfold Spec.insert
-  rcases hcase with ⟨B', _, _, _, hct⟩ | ⟨hB', _, hct⟩
-  · simp [hct]; exact ⟨hs, hc⟩
-  · rw [hct]; simp only [Bool.false_eq_true, if_false]
-    by_cases hfull : l.length ≥ cap
-    · simp [hfull]; exact ⟨hs, hc⟩
-    · simp only [hfull, if_false]
-      subst hl
-      obtain ⟨_, f1, f2, _, _⟩ := spec_absent hA hA' hB hB'
-      rw [f1, f2]
-      exact ⟨sorted_insert hs hA hB', by simp at hfull ⊢; omega⟩
+theorem spec_insert_inv (hw : StrictWeak lt) {cap : Nat} {l : List α} (h : Inv1 lt cap l) (k : α) :
+    Inv1 lt cap (Spec.insert lt cap l k).1 := spec_insert_inv' hw h k
 
 /-- static_set::insert / emplace = spec insert, in particular `(position, inserted)` -/
-theorem ssInsert_eq (hst : StrictTotal lt) {cap : Nat} {l : List α} (h : Inv1 lt cap l) (k : α) :
+theorem ssInsert_eq (hw : StrictWeak lt) {cap : Nat} {l : List α} (h : Inv1 lt cap l) (k : α) :
     ssInsert lt cap l k = .ok (Spec.insert lt cap l k) := by
   obtain ⟨hs, hc⟩ := h
-  obtain ⟨A, B, hl, hr, hsl, hA, hA', hB, hcase⟩ := probe hst hs k
+  obtain ⟨A, B, hl, hr, hsl, hA, hA', hB, hcase⟩ := probe hw hs k
   unfold ssInsert Spec.insert
-  rcases hcase with ⟨B', _, _, he, hct⟩ | ⟨hB', he, hct⟩
+  rcases hcase with ⟨b, B', _, _, _, _, he, hct⟩ | ⟨hB', he, hct⟩
   · simp [hr, he, hct, hsl]
   · simp only [hr, he, hct, ok_bind, Bool.false_eq_true, if_false]
     by_cases hfull : l.length = cap
@@ -148,12 +106,12 @@ theorem ssInsert_eq (hst : StrictTotal lt) {cap : Nat} {l : List α} (h : Inv1 l
       simp
 
 /-- flat_set::emplace over static_vector = spec insert -/
-theorem fsEmplace_eq (hst : StrictTotal lt) {cap : Nat} {l : List α} (h : Inv1 lt cap l) (k : α) :
+theorem fsEmplace_eq (hw : StrictWeak lt) {cap : Nat} {l : List α} (h : Inv1 lt cap l) (k : α) :
     fsEmplace lt cap l k = .ok (Spec.insert lt cap l k) := by
   obtain ⟨hs, hc⟩ := h
-  obtain ⟨A, B, hl, hr, hsl, hA, hA', hB, hcase⟩ := probe hst hs k
+  obtain ⟨A, B, hl, hr, hsl, hA, hA', hB, hcase⟩ := probe hw hs k
   unfold fsEmplace Spec.insert
-  rcases hcase with ⟨B', _, _, he, hct⟩ | ⟨hB', he, hct⟩
+  rcases hcase with ⟨b, B', _, _, _, _, he, hct⟩ | ⟨hB', he, hct⟩
   · simp [hr, he, hct, hsl]
   · simp only [hr, he, hct, ok_bind, Bool.false_eq_true, if_false, Bool.not_false, if_true]
     by_cases hfull : l.length = cap
@@ -175,12 +133,12 @@ theorem fsEmplace_eq (hst : StrictTotal lt) {cap : Nat} {l : List α} (h : Inv1 
       simp [hem]
 
 /-- flat_set::emplace over the inplace-vector-like container = spec insert -/
-theorem fiEmplace_eq (hst : StrictTotal lt) {cap : Nat} {l : List α} (h : Inv1 lt cap l) (k : α) :
+theorem fiEmplace_eq (hw : StrictWeak lt) {cap : Nat} {l : List α} (h : Inv1 lt cap l) (k : α) :
     fiEmplace lt cap l k = .ok (Spec.insert lt cap l k) := by
   obtain ⟨hs, hc⟩ := h
-  obtain ⟨A, B, hl, hr, hsl, hA, hA', hB, hcase⟩ := probe hst hs k
+  obtain ⟨A, B, hl, hr, hsl, hA, hA', hB, hcase⟩ := probe hw hs k
   unfold fiEmplace Spec.insert
-  rcases hcase with ⟨B', _, _, he, hct⟩ | ⟨hB', he, hct⟩
+  rcases hcase with ⟨b, B', _, _, _, _, he, hct⟩ | ⟨hB', he, hct⟩
   · simp [hr, he, hct, hsl]
   · simp only [hr, he, hct, ok_bind, Bool.false_eq_true, if_false, Bool.not_false, if_true]
     by_cases hfull : l.length = cap
@@ -194,31 +152,46 @@ theorem fiEmplace_eq (hst : StrictTotal lt) {cap : Nat} {l : List α} (h : Inv1 
       have h2 : ¬ (A.length + B.length < A.length) := by omega
       simp [miniEmplace, hlt', h2]
 
+/-- insert / emplace of every set kind -/
+theorem setEmplace_eq (hw : StrictWeak lt) (kind : Kind) {cap : Nat} {l : List α} (h : Inv1 lt cap l) (k : α) :
+    setEmplace kind lt cap l k = .ok (Spec.insert lt cap l k) := by
+  cases kind
+  · exact ssInsert_eq hw h k
+  · exact fsEmplace_eq hw h k
+  · exact fiEmplace_eq hw h k
+
 /-- Inserting a new key into a full set reports failure and leaves the set unchanged
     (all three set kinds, through the three refinement theorems above). -/
-theorem full_insert_new_key (hst : StrictTotal lt) {cap : Nat} {l : List α} (h : Inv1 lt cap l) (k : α)
+theorem full_insert_new_key (hw : StrictWeak lt) {cap : Nat} {l : List α} (h : Inv1 lt cap l) (k : α)
     (hfull : l.length = cap) (hnew : Spec.contains lt l k = false) :
     ssInsert lt cap l k = .ok (l, .full) ∧ fsEmplace lt cap l k = .ok (l, .full) ∧
       fiEmplace lt cap l k = .ok (l, .full) := by
   have : Spec.insert lt cap l k = (l, .full) := by simp [Spec.insert, hnew, hfull]
-  rw [ssInsert_eq hst h, fsEmplace_eq hst h, fiEmplace_eq hst h, this]
+  rw [ssInsert_eq hw h, fsEmplace_eq hw h, fiEmplace_eq hw h, this]
   exact ⟨rfl, rfl, rfl⟩
 
 example : Inv1 (fun a b : Nat => decide (a < b)) 3 [1, 3, 5] ∧
     Spec.contains (fun a b : Nat => decide (a < b)) [1, 3, 5] 4 = false :=
   ⟨⟨by unfold Sorted; decide, by decide⟩, by decide⟩
 
+/-- flat_set::insert(const_iterator hint, x) / emplace_hint: whatever the hint, the set changes as by `insert(x)` and the
+    iterator returned designates the element equivalent to `x` in the resulting set (`end()` when a new key met a full set) -/
+theorem fsInsertHint_eq (hw : StrictWeak lt) (kind : Kind) {cap : Nat} {l : List α} (h : Inv1 lt cap l)
+    (hint : Nat) (k : α) :
+    fsInsertHint kind lt cap l hint k = .ok (Spec.insertHint lt cap l hint k) := by
+  simp only [fsInsertHint, setEmplace_eq hw kind h k, Spec.insertHint, hi_first_eq_find hw h k]
+
 /-! ## erase -/
 
 /-- static_set::erase(key) = spec (`filter` + count) -/
-theorem ssEraseKey_eq (hst : StrictTotal lt) {l : List α} (hs : Sorted lt l) (k : α) :
+theorem ssEraseKey_eq (hw : StrictWeak lt) {l : List α} (hs : Sorted lt l) (k : α) :
     ssEraseKey lt l k = .ok (Spec.eraseKey lt l k) := by
-  obtain ⟨A, B, hl, hr, hsl, hA, hA', hB, hcase⟩ := probe hst hs k
+  obtain ⟨A, B, hl, hr, hsl, hA, hA', hB, hcase⟩ := probe hw hs k
   unfold ssEraseKey Spec.eraseKey
-  rcases hcase with ⟨B', hB2, hB', he, _⟩ | ⟨hB', he, _⟩
+  rcases hcase with ⟨b, B', hB2, hb1, hb2, hB', he, _⟩ | ⟨hB', he, _⟩
   · subst hB2; subst hl
-    obtain ⟨_, f1, f2, _⟩ := spec_present hst hA hB'
-    have her : ssEraseAt (A ++ k :: B') A.length = .ok (A ++ B', A.length) := by
+    obtain ⟨_, f1, f2⟩ := spec_present hb1 hb2 hA hB'
+    have her : ssEraseAt (A ++ b :: B') A.length = .ok (A ++ B', A.length) := by
       unfold ssEraseAt
       rw [if_neg (by simp), svErase_eq _ _ _ (by omega) (by simp)]
       simp
@@ -227,32 +200,48 @@ theorem ssEraseKey_eq (hst : StrictTotal lt) {l : List α} (hs : Sorted lt l) (k
     obtain ⟨_, _, _, f1, f2⟩ := spec_absent hA hA' hB hB'
     simp [hr, he, f1, f2]
 
-/-- what `remove` + `erase(it, end())` leaves and counts, in spec terms -/
-theorem remove_erase_spec [DecidableEq α] (hst : StrictTotal lt) (l : List α) (k : α) :
-    ∃ l1, removeIf l (fun x => decide (x = k)) = .ok (l1, (Spec.eraseKey lt l k).1.length) ∧
-      l1.take (Spec.eraseKey lt l k).1.length ++ l1.drop l1.length = (Spec.eraseKey lt l k).1 ∧
-      (Spec.eraseKey lt l k).1.length ≤ l1.length ∧
-      l1.length - (Spec.eraseKey lt l k).1.length = (Spec.eraseKey lt l k).2 := by
-  have hq : (fun x => !Spec.equiv lt k x) = (fun x => !(fun x => decide (x = k)) x) := by
-    funext x; rw [equiv_iff_eq hst]
-  have hq2 : Spec.equiv lt k = (fun x => decide (x = k)) := by funext x; rw [equiv_iff_eq hst]
-  obtain ⟨l1, h1, h2, h3⟩ := removeIf_spec (fun x => decide (x = k)) l
-  refine ⟨l1, ?_, ?_, ?_, ?_⟩
-  · simp only [Spec.eraseKey, hq]; exact h1
-  · simp only [Spec.eraseKey, hq]; rw [h2]; simp
-  · simp only [Spec.eraseKey, hq]; rw [h3]; exact List.length_filter_le _ _
-  · simp only [Spec.eraseKey, hq, hq2, h3]
-    have := countP_add_not (fun x => decide (x = k)) l
-    omega
+/-- flat_set::erase(key) (`find` + `erase(it)`) over static_vector = spec -/
+theorem fsEraseKey_eq (hw : StrictWeak lt) {l : List α} (hs : Sorted lt l) (k : α) :
+    fsEraseKey lt l k = .ok (Spec.eraseKey lt l k) := by
+  obtain ⟨A, B, hl, hr, hsl, hA, hA', hB, hcase⟩ := probe hw hs k
+  have hr' : boundLoop l (fun x => lt x k) 0 l.length = .ok A.length := hr
+  unfold fsEraseKey findLB Spec.eraseKey
+  rcases hcase with ⟨b, B', hB2, hb1, hb2, hB', he, _⟩ | ⟨hB', he, _⟩
+  · subst hB2; subst hl
+    obtain ⟨_, f1, f2⟩ := spec_present hb1 hb2 hA hB'
+    have her : ssEraseAt (A ++ b :: B') A.length = .ok (A ++ B', A.length) := by
+      unfold ssEraseAt
+      rw [if_neg (by simp), svErase_eq _ _ _ (by omega) (by simp)]
+      simp
+    have hne : ¬ A.length = (A ++ b :: B').length := by simp
+    simp only [hr', ok_bind, he]
+    simp [her, f1, f2]
+  · subst hl
+    obtain ⟨_, _, _, f1, f2⟩ := spec_absent hA hA' hB hB'
+    simp only [hr', ok_bind, he]
+    simp [f1, f2]
 
-/-- flat_set::erase(key) (`remove` + `erase(it,end)`) = spec -/
-theorem fsEraseKey_eq [DecidableEq α] (hst : StrictTotal lt) (l : List α) (k : α) :
-    fsEraseKey l k = .ok (Spec.eraseKey lt l k) := by
-  obtain ⟨l1, h1, h2, h3, h4⟩ := remove_erase_spec hst l k
-  unfold fsEraseKey
-  simp only [h1, ok_bind]
-  rw [svErase_eq _ _ _ h3 (Nat.le_refl _)]
-  simp only [ok_bind, h2, h4]
+/-- erase(key) of every set kind -/
+theorem setEraseKey_eq (hw : StrictWeak lt) (kind : Kind) {l : List α} (hs : Sorted lt l) (k : α) :
+    setEraseKey kind lt l k = .ok (Spec.eraseKey lt l k) := by
+  cases kind
+  · exact ssEraseKey_eq hw hs k
+  · exact fsEraseKey_eq hw hs k
+  · obtain ⟨A, B, hl, hr, hsl, hA, hA', hB, hcase⟩ := probe hw hs k
+    have hr' : boundLoop l (fun x => lt x k) 0 l.length = .ok A.length := hr
+    unfold setEraseKey findLB Spec.eraseKey
+    rcases hcase with ⟨b, B', hB2, hb1, hb2, hB', he, _⟩ | ⟨hB', he, _⟩
+    · subst hB2; subst hl
+      obtain ⟨_, f1, f2⟩ := spec_present hb1 hb2 hA hB'
+      have hne : ¬ A.length = (A ++ b :: B').length := by simp
+      have hme : miniErase (A ++ b :: B') A.length (A.length + 1) = .ok (A ++ B', A.length) := by
+        simp [miniErase]
+      simp only [hr', ok_bind, he]
+      simp [hme, f1, f2]
+    · subst hl
+      obtain ⟨_, _, _, f1, f2⟩ := spec_absent hA hA' hB hB'
+      simp only [hr', ok_bind, he]
+      simp [f1, f2]
 
 /-- erase(pos) and erase(first,last) on a valid position / range = spec -/
 theorem ssEraseRange_eq (l : List α) (f la : Nat) (h1 : f ≤ la) (h2 : la ≤ l.length) :
@@ -268,38 +257,117 @@ example : (1 : Nat) < [1, 3, 5].length := by decide
 
 /-! ## range insert -/
 
-theorem ssInsertRange_eq (hst : StrictTotal lt) {cap : Nat} (ks : List α) : ∀ {l : List α}, Inv1 lt cap l →
+theorem ssInsertRange_eq (hw : StrictWeak lt) {cap : Nat} (ks : List α) : ∀ {l : List α}, Inv1 lt cap l →
     ssInsertRange lt cap l ks = .ok (Spec.insertRange lt cap l ks) := by
   induction ks with
   | nil => intro l _; rfl
   | cons k ks ih =>
     intro l h
-    simp only [ssInsertRange, Spec.insertRange, ssInsert_eq hst h, ok_bind]
-    exact ih (spec_insert_inv hst h k)
+    simp only [ssInsertRange, Spec.insertRange, ssInsert_eq hw h, ok_bind]
+    exact ih (spec_insert_inv hw h k)
 
-theorem fsInsertRange_eq (hst : StrictTotal lt) {cap : Nat} (ks : List α) : ∀ {l : List α}, Inv1 lt cap l →
+theorem fsInsertRange_eq (hw : StrictWeak lt) {cap : Nat} (ks : List α) : ∀ {l : List α}, Inv1 lt cap l →
     fsInsertRange lt cap l ks = .ok (Spec.insertRange lt cap l ks) := by
   induction ks with
   | nil => intro l _; rfl
   | cons k ks ih =>
     intro l h
-    simp only [fsInsertRange, Spec.insertRange, fsEmplace_eq hst h, ok_bind]
-    exact ih (spec_insert_inv hst h k)
+    simp only [fsInsertRange, Spec.insertRange, fsEmplace_eq hw h, ok_bind]
+    exact ih (spec_insert_inv hw h k)
 
-theorem fiInsertRange_eq (hst : StrictTotal lt) {cap : Nat} (ks : List α) : ∀ {l : List α}, Inv1 lt cap l →
+theorem fiInsertRange_eq (hw : StrictWeak lt) {cap : Nat} (ks : List α) : ∀ {l : List α}, Inv1 lt cap l →
     fiInsertRange lt cap l ks = .ok (Spec.insertRange lt cap l ks) := by
   induction ks with
   | nil => intro l _; rfl
   | cons k ks ih =>
     intro l h
-    simp only [fiInsertRange, Spec.insertRange, fiEmplace_eq hst h, ok_bind]
-    exact ih (spec_insert_inv hst h k)
+    simp only [fiInsertRange, Spec.insertRange, fiEmplace_eq hw h, ok_bind]
+    exact ih (spec_insert_inv hw h k)
 
-theorem spec_insertRange_inv (hst : StrictTotal lt) {cap : Nat} (ks : List α) : ∀ {l : List α}, Inv1 lt cap l →
-    Inv1 lt cap (Spec.insertRange lt cap l ks) := by
-  induction ks with
-  | nil => intro l h; exact h
-  | cons k ks ih => intro l h; exact ih (spec_insert_inv hst h k)
+theorem setInsertRange_eq (hw : StrictWeak lt) (kind : Kind) {cap : Nat} (ks : List α) {l : List α} (h : Inv1 lt cap l) :
+    setInsertRange kind lt cap l ks = .ok (Spec.insertRange lt cap l ks) := by
+  cases kind
+  · exact ssInsertRange_eq hw ks h
+  · exact fsInsertRange_eq hw ks h
+  · exact fiInsertRange_eq hw ks h
+
+theorem spec_insertRange_inv (hw : StrictWeak lt) {cap : Nat} (ks : List α) {l : List α} (h : Inv1 lt cap l) :
+    Inv1 lt cap (Spec.insertRange lt cap l ks) := spec_insertRange_inv' hw ks h
+
+/-! ## clear, swap, extract, replace, reverse iteration: the container operations underneath -/
+
+/-- `clear()` leaves the empty set -/
+theorem clear_eq (kind : Kind) (l : List α) : setClear kind l = [] := Tetl.C09.setClear_eq kind l
+
+/-- `swap`: the three moves of `static_vector::swap` (clear + append loop + rotate each) stay inside both vectors,
+    violate no precondition and exchange the two element sequences -/
+theorem swap_eq (kind : Kind) {cap : Nat} {a b : List α} (ha : a.length ≤ cap) (hb : b.length ≤ cap) :
+    setSwap kind cap a b = .ok (b, a) := Tetl.C09.setSwap_eq kind cap a b ha hb
+
+/-- `extract() &&` returns the elements (the `fix:` of F-C09-fs-extract-empty) and leaves the set empty -/
+theorem extract_eq (kind : Kind) {cap : Nat} {l : List α} (h : l.length ≤ cap) :
+    fsExtract kind cap l = .ok ([], l) := Tetl.C09.fsExtract_eq kind cap l h
+
+/-- `replace(c)` adopts the container's elements -/
+theorem replace_eq (kind : Kind) {cap : Nat} (l : List α) {c : List α} (h : c.length ≤ cap) :
+    fsReplace kind cap l c = .ok c := Tetl.C09.fsReplace_eq kind cap l c h
+
+/-- `rbegin()..rend()` visits the elements back to front, reading inside the vector only -/
+theorem riter_eq (l : List α) : riter l = .ok l.reverse := Tetl.C09.riter_eq l
+
+example : ([1, 3, 5] : List Nat).length ≤ 3 := by decide
+
+/-! ## constructors -/
+
+/-- Every constructor on input satisfying its documented precondition (`Spec.validCtor`: the range / container fits;
+    for the `sorted_unique` constructors: sorted w.r.t. the comparator and unique) builds exactly the spec's set … -/
+theorem construct_eq (hw : StrictWeak lt) (kind : Kind) (cap : Nat) (ctor : Ctor) (init : List α)
+    (hk : kind = .ss → ctor = .range) (hv : Spec.validCtor lt cap ctor init = true) :
+    construct kind lt cap ctor init = .ok (Spec.construct lt cap ctor init) := by
+  have hnil : Inv1 lt cap ([] : List α) := inv1_nil cap
+  cases kind <;> cases ctor <;> first | (exact absurd (hk rfl) (by decide)) | skip
+  all_goals simp only [Spec.validCtor, decide_eq_true_eq, Bool.and_eq_true] at hv
+  · have : ¬ init.length > cap := by omega
+    simp only [construct, this, if_false, Spec.construct]
+    exact ssInsertRange_eq hw init hnil
+  · exact fsInsertRange_eq hw init hnil
+  · simp only [construct, svCtor_eq cap init hv, Spec.construct]
+    exact fsInsertRange_eq hw init hnil
+  · simp only [construct, svCtor_eq cap init hv.1, Spec.construct]
+  · simp only [construct, svCtor_eq cap init hv.1, Spec.construct]
+  · exact fiInsertRange_eq hw init hnil
+  · simp only [construct, miniCtor_eq cap init hv, Spec.construct]
+    exact fiInsertRange_eq hw init hnil
+  · simp only [construct, miniCtor_eq cap init hv.1, Spec.construct]
+  · simp only [construct, miniCtor_eq cap init hv.1, Spec.construct]
+
+/-- … and that set satisfies the invariant (strictly ascending, within capacity) -/
+theorem construct_inv (hw : StrictWeak lt) (cap : Nat) (ctor : Ctor) (init : List α)
+    (hv : Spec.validCtor lt cap ctor init = true) : Inv1 lt cap (Spec.construct lt cap ctor init) := by
+  cases ctor <;> simp only [Spec.validCtor, decide_eq_true_eq, Bool.and_eq_true] at hv
+  · exact spec_insertRange_inv hw init (inv1_nil cap)
+  · exact spec_insertRange_inv hw init (inv1_nil cap)
+  · exact ⟨(sortedUnique_iff init).mp hv.2, hv.1⟩
+  · exact ⟨(sortedUnique_iff init).mp hv.2, hv.1⟩
+
+example : Spec.validCtor (fun a b : Nat => decide (a < b)) 3 .su [1, 3, 5] = true := by decide
+example : Spec.validCtor (fun a b : Nat => decide (a < b)) 3 .cont [5, 1, 5] = true := by decide
+
+/-! ## flat_multiset -/
+
+/-- `flat_multiset(KeyContainer)` (DESIGN §4 `C09.multiset_sorted_perm`): for every strict weak order and every container
+    that fits, the constructor — move of the container, then `etl::sort` = gnome sort — touches nothing outside the vector,
+    does not exhaust its loop bound and leaves the same elements (a permutation) in weakly ascending order -/
+theorem multiset_sorted_perm (hw : StrictWeak lt) (cap : Nat) (c : List α) (hfit : c.length ≤ cap) :
+    ∃ r, msetCtor lt cap c = .ok r ∧ r.Perm c ∧ r.Pairwise (fun a b => lt b a = false) :=
+  msetCtor_spec hw cap c hfit
+
+/-- when moreover `==` is the comparator's equivalence the result is THE sorted sequence: the spec's stable sort,
+    which the run compares with `std::multiset` -/
+theorem multiset_eq_spec (hw : StrictWeak lt) (heq : EquivIsEq lt) (cap : Nat) (c : List α) (hfit : c.length ≤ cap) :
+    msetCtor lt cap c = .ok (Spec.multiset lt c) := msetCtor_eq_spec hw heq cap c hfit
+
+example : ([2, 0, 2, 1] : List Nat).length ≤ 8 := by decide
 
 /-! ## histories -/
 
@@ -314,12 +382,16 @@ theorem spec_eraseRange_inv {cap : Nat} {l : List α} (h : Inv1 lt cap l) (f la 
   simp [Spec.eraseRange]; omega
 
 /-- every operation keeps both sets strictly ascending (hence unique) and within capacity -/
-theorem step_inv (hst : StrictTotal lt) (isSet : Bool) {cap : Nat} {s : St α} (hinv : Inv lt cap s) (op : Op α)
-    (hv : Spec.valid cap lt s op = true) : Inv lt cap (Spec.step isSet lt cap s op).1 := by
+theorem step_inv (hw : StrictWeak lt) (h : Het α κ) (isSet : Bool) {cap : Nat} {s : St α} (hinv : Inv lt cap s)
+    (op : Op α κ) (hv : Spec.valid cap lt s op = true) : Inv lt cap (Spec.step isSet lt h cap s op).1 := by
   obtain ⟨h1, h2⟩ := hinv
   cases op with
-  | insert k => exact ⟨spec_insert_inv hst h1 k, h2⟩
-  | insertRange ks => exact ⟨spec_insertRange_inv hst ks h1, h2⟩
+  | insert k => exact ⟨spec_insert_inv hw h1 k, h2⟩
+  | insertHint pos k =>
+    cases isSet
+    · exact ⟨spec_insert_inv hw h1 k, h2⟩
+    · exact ⟨h1, h2⟩
+  | insertRange ks => exact ⟨spec_insertRange_inv hw ks h1, h2⟩
   | eraseKey k => exact ⟨spec_eraseKey_inv h1 k, h2⟩
   | eraseAt pos => exact ⟨spec_eraseRange_inv h1 pos (pos + 1) (by omega), h2⟩
   | eraseRange f la =>
@@ -336,40 +408,24 @@ theorem step_inv (hst : StrictTotal lt) (isSet : Bool) {cap : Nat} {s : St α} (
     cases isSet
     · exact ⟨⟨hv.2, hv.1⟩, h2⟩
     · exact ⟨h1, h2⟩
-  | find k het => exact ⟨h1, h2⟩
-  | contains k het => exact ⟨h1, h2⟩
-  | count k het => exact ⟨h1, h2⟩
-  | lowerBound k => exact ⟨h1, h2⟩
-  | upperBound k => exact ⟨h1, h2⟩
-  | equalRange k => exact ⟨h1, h2⟩
+  | lookup w k => exact ⟨h1, h2⟩
+  | hlookup w k => exact ⟨h1, h2⟩
+  | riter => exact ⟨h1, h2⟩
 
 /-- One operation of any of the three set kinds on a state satisfying the invariant: the model
     never errors and produces exactly the spec's new state and observable result. -/
-theorem step_refines [DecidableEq α] (hst : StrictTotal lt) (kind : Kind) {cap : Nat} {s : St α}
-    (hinv : Inv lt cap s) (op : Op α) (hv : Spec.valid cap lt s op = true) (hk : opOk kind op = true) :
-    step kind lt cap s op = .ok (Spec.step (kind == .ss) lt cap s op) := by
+theorem step_refines (hw : StrictWeak lt) {h : Het α κ} (hh : HetOk lt h) (kind : Kind) {cap : Nat}
+    {s : St α} (hinv : Inv lt cap s) (op : Op α κ) (hv : Spec.valid cap lt s op = true) (hk : opOk kind op = true) :
+    step kind lt h cap s op = .ok (Spec.step (kind == .ss) lt h cap s op) := by
   obtain ⟨h1, h2⟩ := hinv
   have hs := h1.1
   cases op with
-  | insert k =>
-    cases kind <;> simp [step, Spec.step, ssInsert_eq hst h1, fsEmplace_eq hst h1, fiEmplace_eq hst h1]
-  | insertRange ks =>
-    cases kind <;>
-      simp [step, Spec.step, ssInsertRange_eq hst ks h1, fsInsertRange_eq hst ks h1, fiInsertRange_eq hst ks h1]
+  | insert k => simp [step, Spec.step, setEmplace_eq hw kind h1 k]
+  | insertHint pos k =>
+    cases kind <;> simp [opOk] at hk <;> simp [step, Spec.step, fsInsertHint_eq hw _ h1]
+  | insertRange ks => simp [step, Spec.step, setInsertRange_eq hw kind ks h1]
   | eraseKey k =>
-    cases kind
-    · simp [step, Spec.step, ssEraseKey_eq hst hs]
-    · simp [step, Spec.step, fsEraseKey_eq hst]
-    · obtain ⟨l1, e1, e2, e3, e4⟩ := remove_erase_spec hst s.cur k
-      have hme : miniErase l1 (Spec.eraseKey lt s.cur k).1.length l1.length
-          = .ok (l1.take (Spec.eraseKey lt s.cur k).1.length ++ l1.drop l1.length,
-              (Spec.eraseKey lt s.cur k).1.length) := by
-        unfold miniErase
-        have : (decide ((Spec.eraseKey lt s.cur k).1.length > l1.length) || decide (l1.length > l1.length)) = false := by
-          simp; omega
-        rw [this]; rfl
-      have e2' : l1.take (Spec.eraseKey lt s.cur k).1.length = (Spec.eraseKey lt s.cur k).1 := by simpa using e2
-      simp [step, Spec.step, e1, hme, e2', e4]
+    simp [step, Spec.step, setEraseKey_eq hw kind hs k]
   | eraseAt pos =>
     simp [Spec.valid] at hv
     cases kind
@@ -384,59 +440,28 @@ theorem step_refines [DecidableEq α] (hst : StrictTotal lt) (kind : Kind) {cap 
     · simp [step, Spec.step, ssEraseRange_eq _ _ _ hv.1 hv.2]
     · have : (decide (f > la) || decide (la > s.cur.length)) = false := by simp; omega
       simp [step, Spec.step, miniErase, this, Spec.eraseRange]
-  | clear => cases kind <;> simp [step, Spec.step]
-  | swap => cases kind <;> simp [step, Spec.step]
-  | extract => cases kind <;> simp [opOk] at hk <;> simp [step, Spec.step]
+  | clear => simp [step, Spec.step, clear_eq]
+  | swap => simp [step, Spec.step, swap_eq kind h1.2 h2.2]
+  | extract => cases kind <;> simp [opOk] at hk <;> simp [step, Spec.step, extract_eq _ h1.2]
   | replace c =>
     simp [Spec.valid] at hv
-    have : ¬ c.length > cap := by omega
-    cases kind <;> simp [opOk] at hk <;> simp [step, Spec.step, this]
-  | find k het =>
-    cases kind <;> cases het <;> simp [step, Spec.step, ssFind_eq hst hs, findLB_eq hst hs]
-  | contains k het =>
-    have hc : ((Spec.find lt s.cur k) != s.cur.length) = Spec.contains lt s.cur k := by
-      unfold Spec.find
-      cases hcc : Spec.contains lt s.cur k with
-      | false => simp
-      | true =>
-        simp only [if_true]
-        obtain ⟨A, B, hl, _, hsl, _, _, _, hcase⟩ := probe hst hs k
-        rcases hcase with ⟨B', hB, _, _, _⟩ | ⟨_, _, hcf⟩
-        · rw [hsl, hl, hB]; simp
-        · rw [hcf] at hcc; cases hcc
-    cases kind <;> cases het <;> simp [step, Spec.step, ssFind_eq hst hs, findLB_eq hst hs, hc]
-  | count k het =>
-    have hc : ((Spec.find lt s.cur k) != s.cur.length) = Spec.contains lt s.cur k := by
-      unfold Spec.find
-      cases hcc : Spec.contains lt s.cur k with
-      | false => simp
-      | true =>
-        simp only [if_true]
-        obtain ⟨A, B, hl, _, hsl, _, _, _, hcase⟩ := probe hst hs k
-        rcases hcase with ⟨B', hB, _, _, _⟩ | ⟨_, _, hcf⟩
-        · rw [hsl, hl, hB]; simp
-        · rw [hcf] at hcc; cases hcc
-    have hc2 : (if Spec.find lt s.cur k = s.cur.length then 0 else 1)
-        = (if Spec.contains lt s.cur k = true then 1 else 0) := by
-      cases hcc : Spec.contains lt s.cur k with
-      | false => rw [hcc] at hc; simp at hc; simp [hc]
-      | true => rw [hcc] at hc; simp at hc; simp [hc]
-    cases kind <;> cases het <;> simp [step, Spec.step, ssFind_eq hst hs, findLB_eq hst hs, hc2]
-  | lowerBound k => cases kind <;> simp [step, Spec.step, lowerBound_eq hst hs]
-  | upperBound k => cases kind <;> simp [step, Spec.step, upperBound_eq hst hs]
-  | equalRange k => cases kind <;> simp [step, Spec.step, equalRange_eq hst hs]
+    cases kind <;> simp [opOk] at hk <;>
+      simp [step, Spec.step, svCtor_eq cap c hv.1, miniCtor_eq cap c hv.1, replace_eq _ _ hv.1]
+  | lookup w k => simp [step, Spec.step, lookup_eq hw hs k]
+  | hlookup w k => simp [step, Spec.step, hlookup_eq hh hs k]
+  | riter => simp [step, Spec.step, riter_eq]
 
 /-- MAIN THEOREM (refinement over histories).  From any state whose two sets are strictly
-    ascending and within capacity, every history of insert/emplace, range insert, erase by
-    key/position/range, clear, swap, extract, replace and all lookups — of any length, for any
-    capacity, key type and strict total comparator, for static_set and both flat_set backings —
-    runs without a single out-of-vector access, precondition violation or exhausted loop bound,
-    and its outputs (positions, inserted flags, `full` reports, erased counts, lookup answers,
-    extracted contents) and final state equal those of the std::set specification. -/
-theorem run_refines [DecidableEq α] (hst : StrictTotal lt) (kind : Kind) (cap : Nat) :
-    ∀ (ops : List (Op α)) (s : St α), Inv lt cap s → opsOk kind ops = true →
-      validHist (kind == .ss) lt cap s ops = true →
-      run kind lt cap s ops = .ok (Spec.run (kind == .ss) lt cap s ops) := by
+    ascending and within capacity, every history of insert/emplace, insert with hint, range insert, erase by
+    key/position/range, clear, swap, extract, replace, all lookups (homogeneous and heterogeneous) and reverse
+    iteration — of any length, for any capacity, key type and strict weak order, any consistent heterogeneous
+    comparison, for static_set and both flat_set backings — runs without a single out-of-vector access,
+    precondition violation or exhausted loop bound, and its outputs (positions, inserted flags, `full` reports,
+    erased counts, lookup answers, extracted contents) and final state equal those of the std::set specification. -/
+theorem run_refines (hw : StrictWeak lt) {h : Het α κ} (hh : HetOk lt h) (kind : Kind) (cap : Nat) :
+    ∀ (ops : List (Op α κ)) (s : St α), Inv lt cap s → opsOk kind ops = true →
+      validHist (kind == .ss) lt h cap s ops = true →
+      run kind lt h cap s ops = .ok (Spec.run (kind == .ss) lt h cap s ops) := by
   intro ops
   induction ops with
   | nil => intro s _ _ _; rfl
@@ -444,36 +469,52 @@ theorem run_refines [DecidableEq α] (hst : StrictTotal lt) (kind : Kind) (cap :
     intro s hinv hok hv
     simp only [opsOk, List.all_cons, Bool.and_eq_true] at hok
     simp only [validHist, Bool.and_eq_true] at hv
-    have hstep := step_refines hst kind hinv op hv.1 hok.1
-    have hinv' := step_inv hst (kind == .ss) hinv op hv.1
-    have hrest := ih (Spec.step (kind == .ss) lt cap s op).1 hinv' hok.2 hv.2
+    have hstep := step_refines hw hh kind hinv op hv.1 hok.1
+    have hinv' := step_inv hw h (kind == .ss) hinv op hv.1
+    have hrest := ih (Spec.step (kind == .ss) lt h cap s op).1 hinv' hok.2 hv.2
     simp only [run, Spec.run, hstep, ok_bind, hrest]
 
 /-- MAIN THEOREM (invariant over histories): after every valid history both sets are strictly
     ascending w.r.t. the comparator — hence duplicate-free — and within capacity. -/
-theorem inv_history (hst : StrictTotal lt) (isSet : Bool) (cap : Nat) :
-    ∀ (ops : List (Op α)) (s : St α), Inv lt cap s → validHist isSet lt cap s ops = true →
-      Inv lt cap (Spec.run isSet lt cap s ops).1 := by
+theorem inv_history (hw : StrictWeak lt) (h : Het α κ) (isSet : Bool) (cap : Nat) :
+    ∀ (ops : List (Op α κ)) (s : St α), Inv lt cap s → validHist isSet lt h cap s ops = true →
+      Inv lt cap (Spec.run isSet lt h cap s ops).1 := by
   intro ops
   induction ops with
   | nil => intro s h _; exact h
   | cons op ops ih =>
     intro s hinv hv
     simp only [validHist, Bool.and_eq_true] at hv
-    exact ih _ (step_inv hst isSet hinv op hv.1) hv.2
+    exact ih _ (step_inv hw h isSet hinv op hv.1) hv.2
 
-/-- the comparators of the harness satisfy the hypothesis -/
+/-- the comparators of the harness satisfy the hypotheses: `less` / `greater` on integers are strict total orders
+    (hence strict weak orders); ordering by `k / 2` is a strict weak order that is not total -/
 theorem strictTotal_nat_lt : StrictTotal (fun a b : Nat => decide (a < b)) :=
   ⟨by simp, by intro a b c; simp; omega, by intro a b; simp; omega⟩
 theorem strictTotal_nat_gt : StrictTotal (fun a b : Nat => decide (a > b)) :=
   ⟨by simp, by intro a b c; simp; omega, by intro a b; simp; omega⟩
+theorem strictWeak_nat_half : StrictWeak (fun a b : Nat => decide (a / 2 < b / 2)) :=
+  ⟨by intro a; simp, by intro a b c; simp; omega, by intro a b c; simp; omega⟩
+
+theorem half_not_total : ¬ EquivIsEq (fun a b : Nat => decide (a / 2 < b / 2)) :=
+  fun h => absurd (h 2 3 (by decide) (by decide)) (by decide)
+
+-- non-vacuity of the hypothesis `StrictWeak` of every theorem above: the comparators of the harness
+example : StrictWeak (fun a b : Nat => decide (a < b)) := strictTotal_nat_lt.toWeak
+example : StrictWeak (fun a b : Nat => decide (a > b)) := strictTotal_nat_gt.toWeak
+
+/-- the former hypothesis `StrictTotal` is exactly `StrictWeak` + `EquivIsEq` (`==` is the comparator's equivalence) -/
+theorem strictTotal_iff : StrictTotal lt ↔ StrictWeak lt ∧ EquivIsEq lt :=
+  ⟨fun h => ⟨h.toWeak, h.equivIsEq⟩, fun h => StrictTotal.of h.1 h.2⟩
 
 -- non-vacuity: a concrete state and history satisfying every hypothesis of `run_refines`
 example : Inv (fun a b : Nat => decide (a < b)) 3 { cur := [1, 3, 5], other := [2] } :=
   ⟨⟨by unfold Sorted; decide, by decide⟩, ⟨by unfold Sorted; decide, by decide⟩⟩
-example : validHist false (fun a b : Nat => decide (a < b)) 3 { cur := [1, 3, 5], other := [2] }
-    [.insert 4, .eraseKey 2, .eraseAt 1, .insert 4, .swap, .eraseRange 0 1, .replace [0, 7], .extract] = true := by
+example : validHist false (fun a b : Nat => decide (a < b)) ({ ek := fun x k => decide (x < k), ke := fun k x => decide (k < x) } : Het Nat Nat)
+    3 { cur := [1, 3, 5], other := [2] }
+    [.insert 4, .eraseKey 2, .eraseAt 1, .insertHint 0 4, .swap, .eraseRange 0 1, .replace [0, 7], .hlookup .find 7,
+      .riter, .extract] = true := by
   decide
-example : opsOk Kind.fs ([.insert 4, .swap, .replace [0, 7], .extract] : List (Op Nat)) = true := by decide
+example : opsOk Kind.fs ([.insert 4, .swap, .replace [0, 7], .insertHint 1 3, .extract] : List (Op Nat Nat)) = true := by decide
 
 end Tetl.C09.Props
